@@ -31,6 +31,7 @@ class C03(DevProp):
     fail_term = "c03_failures k"
     mis_term = "notes_mismatch k"
     nontrivial_term = "c03_has_collision k"
+    soak = True
     monitor_name = "C03 monitor (messages of every press/release equal the collision rule applied to the number of holders counted from the history)"
     correspondence_name = "C03 view (messages of every step that is not a panic press)"
     rule = ("every press/release interleaving of 2, 3 (and 4: sampled in quick, exhaustive in thorough) keys resolving to one (channel, pitch) - "
@@ -96,10 +97,14 @@ class C03(DevProp):
                     ev = [k(A, 1), k(B, 1), k(A, 0)] + up + [k(A, 1), k(A, 0)] + down + tail + [k(C, 1), k(C, 0), k(A, 1), k(A, 0)]
                     cases.append({"cfg": cfg, "abs": [], "events": ev, "tag": "out-of-range-repress"})
         for i in range(200 if tier == "quick" else 6000):
-            cfg = devgen.gen_config(rng, with_exit=False, share=True)
-            h = devgen.gen_history(rng, cfg, rng.randint(20, 70), p_action=0.2, max_down=6)
-            cases.append({"cfg": cfg, "abs": [], "events": h + devgen.release_all(h), "tag": "random"})
+            cases.append(self.soak_case(rng))
         return cases
+
+    def soak_case(self, rng):
+        """one case of the 'random' stream (also the stream of the extracted-model soak)"""
+        cfg = devgen.gen_config(rng, with_exit=False, share=True)
+        h = devgen.gen_history(rng, cfg, rng.randint(20, 70), p_action=0.2, max_down=6)
+        return {"cfg": cfg, "abs": [], "events": h + devgen.release_all(h), "tag": "random"}
 
 
 def run(run_):
